@@ -46,10 +46,20 @@ def seeded_table():
     return "\n".join(rows)
 
 
+def fixes_list():
+    import subprocess
+    out = subprocess.run(["git", "-C", "/repo", "log", "--reverse", "--format=%h %s", "--grep=^fix:"], capture_output=True, text=True).stdout
+    rows = ["Complete list (`git -C /repo log --grep '^fix:'`, oldest first; %d commits):" % len(out.strip().split("\n")), ""]
+    for l in out.strip().split("\n"):
+        h, subj = l.split(" ", 1)
+        rows.append("- `%s` %s" % (h, subj.replace("|", "/")))
+    return "\n".join(rows)
+
+
 def main():
     p = os.path.join(VERIF, "DESIGN.md")
     t = open(p, encoding="utf-8").read()
-    for name, content in (("coverage", coverage_table()), ("seeded", seeded_table())):
+    for name, content in (("coverage", coverage_table()), ("seeded", seeded_table()), ("fixes", fixes_list())):
         b, e = "<!-- BEGIN:%s -->" % name, "<!-- END:%s -->" % name
         if b in t:
             t = t[:t.index(b) + len(b)] + "\n" + content + "\n" + t[t.index(e):]
